@@ -99,7 +99,8 @@ CHECKS["C19"] = {
             "strictly sequential, unexpected arrivals are violations at once, missing ones after three 5 s probes, unanswered fence => inconclusive. "
             "A class is (world, form, state) -> (class, code).",
     "parts": [A("vtx", "./checks/c19", "TestC19", budget={"quick": 90, "thorough": 1500}),
-              A("realudp", "./checks/c19", "TestC19RealUDP", budget={"quick": 120, "thorough": 1500})],
+              A("realudp", "./checks/c19", "TestC19RealUDP", budget={"quick": 120, "thorough": 1500}),
+              A("sched", "./checks/bsem", "TestC19Sched", overlay=True, gomaxprocs=1, budget={"quick": 90, "thorough": 900})],
 }
 
 CHECKS["C18"] = {
